@@ -232,6 +232,12 @@ def rand_id(rng):
         return rng.choice(KEYWORDS)
     if r < 0.20:
         return rng.choice(["1e5", "0x1", "1.2", "007", "1_000", "2b", "0", "1j", "0b1", "1e-5", ".5", "5."])
+    if 0.27 <= r < 0.35:                           # operator words at the start / end / inside of an identifier
+        w = rng.choice(["AND", "OR", "and", "or", "And", "Or", "NOT", "not"])
+        k = rng.randrange(6)
+        pre = rng.choice(["X", "TUM", "B", "g", "1", "x_", "a."])
+        post = rng.choice(["R1", "ES", "F", "y", "2", "_x", ".1"])
+        return [w + post, pre + w, pre + w + post, w + w, w + "_", "_" + w][k]
     if r < 0.27:                                   # keyword glued to something
         return rng.choice(KEYWORDS) + rng.choice(SPECIALS + "_1x") + rng.choice(["", "a", "if", "2"])
     n = rng.choice([1, 1, 2, 2, 3, 4, 5, 6, 8])
